@@ -13,7 +13,32 @@ const (
 	clsServfail = "SERVFAIL"
 	clsOther    = "OTHER"
 	clsNoReply  = "NOREPLY"
+	// clsPartial: NOERROR whose answer section is a proper, exact prefix of
+	// the published alias chain (CNAME/DNAME records only): the alias is
+	// authentic but its target could not be obtained. The cache's CNAME
+	// chase returns this instead of SERVFAIL when the target leg fails; no
+	// record in it is altered, so it is counted, not judged.
+	clsPartial = "PARTIAL"
 )
+
+func partialChain(got, want []dns.RR) bool {
+	if len(got) == 0 || len(got) >= len(want) {
+		return false
+	}
+	for _, rr := range got {
+		if t := rr.Header().Rrtype; t != dns.TypeCNAME && t != dns.TypeDNAME {
+			return false
+		}
+	}
+	// every record of got must be one of want's, and want minus got must
+	// only lack later sets: AnswerMatches on the prefix must succeed.
+	for n := len(got); n <= len(want); n++ {
+		if zm.AnswerMatches(got, want[:n]) == "" {
+			return true
+		}
+	}
+	return false
+}
 
 // expectation is what the model says about one question in one world.
 type expectation struct {
@@ -23,6 +48,10 @@ type expectation struct {
 	mustFail bool
 	// secure: every hop is under an unbroken signed chain.
 	secure bool
+	// islandChild: some hop is answered by a SIGNED zone whose parent
+	// publishes a DS for it, but an insecure cut lies further up — the
+	// zone looks verifiable locally yet nothing anchors it.
+	islandChild bool
 }
 
 func (w *world) expect(q QuerySpec) expectation {
@@ -30,6 +59,17 @@ func (w *world) expect(q QuerySpec) expectation {
 	e := expectation{res: res}
 	e.secure = res.Status == zm.Secure && !w.spec.NoAnchor
 	e.mustFail = res.Status == zm.Bogus || res.Lame || res.Loop || w.spec.NoAnchor
+	for _, st := range res.Steps {
+		if st.Status != zm.Insecure || len(st.Path) < 2 {
+			continue
+		}
+		z, p := w.u.NS.Zone(st.Path[len(st.Path)-1]), w.u.NS.Zone(st.Path[len(st.Path)-2])
+		if z != nil && p != nil && z.Signed() {
+			if d := p.Delegation(z.Apex()); d != nil && d.Secure() {
+				e.islandChild = true
+			}
+		}
+	}
 	return e
 }
 
@@ -45,14 +85,33 @@ func hasEDE(m *dns.Msg) bool {
 }
 
 func findEvil(m *dns.Msg) string {
-	for _, sec := range [][]dns.RR{m.Answer, m.Ns, m.Extra} {
-		for _, rr := range sec {
-			if isEvil(rr) {
-				return rr.String()
-			}
+	for _, rr := range m.Answer {
+		if isEvil(rr) {
+			return rr.String()
 		}
 	}
 	return ""
+}
+
+// findPadding reports a forged out-of-zone record relayed outside the answer
+// section ("authority" / "additional").
+func findPadding(m *dns.Msg) (section, rr string) {
+	for _, x := range m.Ns {
+		if isEvil(x) {
+			return "authority", x.String()
+		}
+	}
+	for _, x := range m.Extra {
+		if isEvil(x) || isEvilGlue(x) {
+			return "additional", x.String()
+		}
+	}
+	return "", ""
+}
+
+func isEvilGlue(rr dns.RR) bool {
+	a, ok := rr.(*dns.A)
+	return ok && a.A.Equal(evilGlue)
 }
 
 // classify compares a CD=0 reply with the expectation.
@@ -83,6 +142,9 @@ func classify(reply *dns.Msg, e expectation) (cls, why string) {
 		got = append(got, rr)
 	}
 	if d := zm.AnswerMatches(got, e.res.Answer); d != "" {
+		if partialChain(got, e.res.Answer) {
+			return clsPartial, d
+		}
 		return clsOther, "answer differs from published data: " + d
 	}
 	return clsTruth, ""
@@ -132,7 +194,30 @@ func judge(reply *dns.Msg, c judgeCtx) judgement {
 		}
 		return j
 	}
+	if !c.e.secure && !c.e.mustFail {
+		// Not under an unbroken signed chain: the statement promises nothing
+		// about the data; only that it is never presented as authenticated.
+		j.Class = "INSECURE"
+		if reply.AuthenticatedData {
+			j.Sig = "ad/set-on-insecure-path/" + tag
+			if c.e.islandChild && c.kind != "forge-nx-parent-nsec" {
+				// one root cause whatever else the case did (FINDINGS.md #3)
+				j.Sig = "ad/set-on-insecure-path/signed-zone-below-insecure-cut"
+			}
+			j.What = fmt.Sprintf("AD=1 although the model says the path is %s: %s", c.e.res.Status, c.q)
+		}
+		return j
+	}
 	j.Class, j.Why = classify(reply, c.e)
+	if sec, rr := findPadding(reply); sec != "" && j.Class != clsOther {
+		// The statement: a response padded with foreign records yields
+		// SERVFAIL; AD only when every RRset of the reply was validated.
+		// Dropping the padding is accepted (TRUTH); relaying it is not.
+		j.Sig = "padding/foreign-rrset-relayed-in-" + sec + "/" + c.role
+		j.What = fmt.Sprintf("%s (%s phase, %s): unvalidated out-of-zone record from the forged upstream response reached the client (AD=%v): %s",
+			c.q, c.phase, c.kind, reply.AuthenticatedData, rr)
+		return j
+	}
 	switch {
 	case j.Class == clsOther:
 		j.Sig = "data/" + otherShape(reply, c.e) + "/" + tag
@@ -140,7 +225,7 @@ func judge(reply *dns.Msg, c judgeCtx) judgement {
 	case reply.AuthenticatedData && !eligible:
 		j.Sig = "ad/set-toward-ineligible-client/" + tag
 		j.What = fmt.Sprintf("AD=1 although the client set neither DO nor AD: %s", c.q)
-	case reply.AuthenticatedData && j.Class != clsTruth:
+	case reply.AuthenticatedData && j.Class != clsTruth && j.Class != clsPartial:
 		j.Sig = "ad/set-on-" + j.Class + "/" + tag
 		j.What = fmt.Sprintf("AD=1 on a %s reply: %s", j.Class, c.q)
 	case reply.AuthenticatedData && !c.e.secure:
@@ -152,6 +237,16 @@ func judge(reply *dns.Msg, c judgeCtx) judgement {
 	case reply.AuthenticatedData && c.adImpossible:
 		j.Sig = "ad/set-though-unverifiable/" + tag
 		j.What = fmt.Sprintf("AD=1 although every server of the zone served a validation-breaking forgery (%s at %s): %s", c.kind, c.role, c.q)
+	case j.Class == clsTruth && c.adImpossible:
+		// The statement: unsigned / mis-signed / expired / proof-less
+		// responses yield SERVFAIL. No server could deliver a verifiable
+		// response, so handing out the (coincidentally correct) data means
+		// the zone was silently treated as insecure.
+		j.Sig = "downgrade/unverifiable-response-served-without-ad/" + tag
+		j.What = fmt.Sprintf("%s (%s phase): every server of the signed zone served a validation-breaking forgery (%s at %s) and the client still got the data (AD=0) instead of SERVFAIL", c.q, c.phase, c.kind, c.role)
+	case j.Class == clsServfail && c.q.EDNS && !hasEDE(reply):
+		j.Sig = "servfail/without-ede/" + c.phase
+		j.What = fmt.Sprintf("SERVFAIL without an Extended DNS Error toward an EDNS client: %s", c.q)
 	}
 	return j
 }
